@@ -3423,4 +3423,4 @@ class SimPersistent(EventBasedTimestampWeightedTally, SimStatisticsInterface):
         elif event.event_type == ReplicationInterface.WARMUP_EVENT:
             self.initialize()
         elif event.event_type == ReplicationInterface.END_REPLICATION_EVENT:
-            self.end_observations(self.simulator.simulator_time)
+            self.end_observations(float(self.simulator.simulator_time))
